@@ -240,3 +240,63 @@ func TestVerifFindingC16YankAliasesKillRing(t *testing.T) {
 		t.Errorf("second yank gives %q, want %q", got, "hello world")
 	}
 }
+
+// C16 (vi delete-character + put-before): a count larger than the characters left on the line. `5x` on "abc"
+// with the cursor on 'b' must remove "bc" and store "bc". Before the fix the loop ran five times: at the end of
+// the line Cursor.Char() gives NUL and Line.CutRune removes the rune *before* the cursor, so the buffer lost
+// "abc" and the register held "bc\x00\x00\x00" - put-before did not give back what was taken.
+func TestVerifFindingC16ViDeleteCharCount(t *testing.T) {
+	rl := NewShell()
+	rl.init()
+	rl.line.Set([]rune("abc")...)
+	rl.cursor.Set(1)
+	rl.Iterations.Add("5")
+	rl.viDeleteChar()
+	if got := string(*rl.line); got != "a" {
+		t.Errorf("line after 5x on \"abc\" at 1: %q, want %q", got, "a")
+	}
+	if got := string(rl.Buffers.Active()); got != "bc" {
+		t.Errorf("register after 5x: %q, want %q", got, "bc")
+	}
+}
+
+// C16 (vi backward delete, `X`, with a count): `2X` at the end of "abc" removes "bc"; the register must hold
+// "bc" so that put gives back what was taken. Before the fix the runes were collected while walking backwards
+// and stored in that order: the register held "cb".
+func TestVerifFindingC16ViRuboutCountReversed(t *testing.T) {
+	rl := NewShell()
+	rl.init()
+	rl.Keymap.SetMain("vi-command")
+	rl.line.Set([]rune("abc")...)
+	rl.cursor.Set(3)
+	rl.Iterations.Add("2")
+	rl.viRubout()
+	if got := string(*rl.line); got != "a" {
+		t.Errorf("line after 2X at the end of \"abc\": %q, want %q", got, "a")
+	}
+	if got := string(rl.Buffers.Active()); got != "bc" {
+		t.Errorf("register after 2X: %q, want %q", got, "bc")
+	}
+}
+
+// C09 ("moving back down past the newest entry restores the text the user was typing"): a multi-step move
+// down that overshoots the newest entry (end-of-history, or down-line-or-history with a count) left the
+// history entry in the buffer while the position said "line being typed": the typed text was lost.
+func TestVerifFindingC09WalkOvershootLosesTypedText(t *testing.T) {
+	rl := NewShell()
+	rl.init()
+	for _, e := range []string{"e1", "e2", "e3", "e4", "e5"} {
+		rl.History.Current().Write(e)
+	}
+	rl.line.Set([]rune("typing")...)
+	rl.cursor.Set(6)
+	rl.History.Walk(1)
+	rl.History.Walk(1)
+	if got := string(*rl.line); got != "e4" {
+		t.Fatalf("two steps up: %q, want e4", got)
+	}
+	rl.History.Walk(-4) // what end-of-history does: Walk(-Len+1)
+	if got := string(*rl.line); got != "typing" {
+		t.Errorf("back down past the newest entry: buffer %q, want the text being typed %q", got, "typing")
+	}
+}
